@@ -1,4 +1,7 @@
+#[cfg(not(kani))]
 use hashbrown::{HashMap, HashSet};
+#[cfg(kani)]
+use crate::verif_map::{HashMap, HashSet};
 
 use crate::adt::{AdtMetadata, FieldPosition};
 use crate::evolution::SerializedEvolutionStep;
